@@ -272,8 +272,8 @@ impl Prop for C18 {
 
     fn gen_cases(&self, tier: Tier) -> u64 {
         match tier {
-            Tier::Quick => 120_000,
-            Tier::Thorough => 2_000_000,
+            Tier::Quick => 1_000_000,
+            Tier::Thorough => 8_000_000,
         }
     }
 
